@@ -189,7 +189,27 @@ macro_rules! iter_fin_ok {
         let mut it = $c.$m();
         let skipped = it.nth(0).map(|t| $enc(t, None));
         let len_after_nth = it.len();
-        rfolded == a
+        // long skips: the middle, just past it, the last entry, one past the end; from both ends; and what is left after
+        let mut nth_ok = true;
+        for j in [n / 2, n / 2 + 1, (2 * n) / 3 + 1, n.saturating_sub(2), n.saturating_sub(1), n] {
+            let mut it = $c.$m();
+            let y = it.nth(j).map(|t| $enc(t, None));
+            nth_ok &= y == a.get(j).cloned() && it.len() == n.saturating_sub(j + 1);
+            let z = it.next().map(|t| $enc(t, None));
+            nth_ok &= z == a.get(j + 1).cloned();
+            let mut it = $c.$m();
+            let y = it.nth_back(j).map(|t| $enc(t, None));
+            nth_ok &= y == (if j < n { Some(a[n - 1 - j].clone()) } else { None }) && it.len() == n.saturating_sub(j + 1);
+            let z = it.next_back().map(|t| $enc(t, None));
+            nth_ok &= z == (if j + 1 < n { Some(a[n - 2 - j].clone()) } else { None });
+        }
+        // skip / step_by / take are built on nth and next
+        let stepped: Vec<$crate::subj::Ints> = $c.$m().step_by(3).map(|t| $enc(t, None)).collect();
+        nth_ok &= stepped == a.iter().step_by(3).cloned().collect::<Vec<_>>();
+        let skipped_many: Vec<$crate::subj::Ints> = $c.$m().skip(n / 2 + 1).map(|t| $enc(t, None)).collect();
+        nth_ok &= skipped_many == a.iter().skip(n / 2 + 1).cloned().collect::<Vec<_>>();
+        nth_ok
+            && rfolded == a
             && rev_first == a.last().cloned()
             && fresh_len == n
             && skipped == a.first().cloned()
